@@ -44,7 +44,9 @@ def f32(x):
 def out_lattice(lo, hi):
     """far below, just below, at min, inside (1/4, 1/2), at max, just above, far above"""
     r = hi - lo
-    return [lo - 3 * r - 1, lo - r * 2.0 ** -18, lo, lo + r / 4, lo + r / 2, hi, hi + r * 2.0 ** -18, hi + 2 * r + 1]
+    # the 2^-22 neighbours are a few last places of f32 away from the bound, inside a documented slack such as Okhsv's 1e-6
+    return [lo - 3 * r - 1, lo - r * 2.0 ** -18, lo - r * 2.0 ** -22, lo, lo + r / 4, lo + r / 2, hi, hi + r * 2.0 ** -22,
+            hi + r * 2.0 ** -18, hi + 2 * r + 1]
 
 
 HUE_OUT = [-30.0, 0.0, 123.0, 360.0, 725.5]
